@@ -36,8 +36,8 @@ theorem lagrange2 {f f' f'' : ℝ → ℝ} {a b : ℝ} (hab : a < b)
     have h4 := h3.fun_mul h2
     have h5 := (h3.fun_pow 2).const_mul K
     have h6 := ((h1.const_sub (f b)).fun_sub h4).fun_sub h5
-    convert h6 using 1
-    simp only [Nat.cast_ofNat, Nat.add_one_sub_one, pow_one]
+    refine h6.congr_deriv ?_
+    norm_num
     ring
   have hcont : ContinuousOn φ (Icc a b) := fun t ht =>
     (hφ t ht).continuousAt.continuousWithinAt
@@ -83,8 +83,8 @@ theorem lagrange3 {f f' f'' f''' : ℝ → ℝ} {a b : ℝ} (hab : a < b)
     have h4' := ((h3.fun_pow 2).div_const 2).fun_mul h2'
     have h5 := (h3.fun_pow 3).const_mul K
     have h6 := (((h1.const_sub (f b)).fun_sub h4).fun_sub h4').fun_sub h5
-    convert h6 using 1
-    simp only [Nat.cast_ofNat, Nat.add_one_sub_one, pow_one]
+    refine h6.congr_deriv ?_
+    norm_num
     ring
   have hcont : ContinuousOn φ (Icc a b) := fun t ht =>
     (hφ t ht).continuousAt.continuousWithinAt
@@ -104,5 +104,113 @@ theorem lagrange3 {f f' f'' f''' : ℝ → ℝ} {a b : ℝ} (hab : a < b)
     · linarith
   rw [h6K, hK]
   field_simp
+
+/-- Reflection `t ↦ f (-t)` of a differentiable function. -/
+theorem hasDerivAt_reflect {f f' : ℝ → ℝ} {t : ℝ} (h : HasDerivAt f (f' (-t)) (-t)) :
+    HasDerivAt (fun s => f (-s)) (-f' (-t)) t := by
+  have := h.comp t (hasDerivAt_neg t)
+  simpa [Function.comp_def] using this
+
+/-- First-order Lagrange remainder towards the left (`b < a`). -/
+theorem lagrange2_back {f f' f'' : ℝ → ℝ} {a b : ℝ} (hba : b < a)
+    (hf : ∀ t ∈ Icc b a, HasDerivAt f (f' t) t)
+    (hf' : ∀ t ∈ Icc b a, HasDerivAt f' (f'' t) t) :
+    ∃ ξ ∈ Ioo b a, f b - f a - (b - a) * f' a = f'' ξ * (b - a) ^ 2 / 2 := by
+  have hmem : ∀ t ∈ Icc (-a) (-b), -t ∈ Icc b a := fun t ht =>
+    ⟨by linarith [ht.2], by linarith [ht.1]⟩
+  obtain ⟨ξ, hξ, h⟩ := lagrange2 (f := fun t => f (-t)) (f' := fun t => -f' (-t))
+    (f'' := fun t => f'' (-t)) (a := -a) (b := -b) (by linarith)
+    (fun t ht => hasDerivAt_reflect (hf _ (hmem t ht)))
+    (fun t ht => by
+      have := (hasDerivAt_reflect (hf' _ (hmem t ht))).fun_neg
+      simpa using this)
+  refine ⟨-ξ, ⟨by linarith [hξ.2], by linarith [hξ.1]⟩, ?_⟩
+  simp only [neg_neg] at h
+  have e : (-b - -a) = -(b - a) := by ring
+  rw [e] at h
+  linear_combination h
+
+/-- Second-order Lagrange remainder towards the left (`b < a`). -/
+theorem lagrange3_back {f f' f'' f''' : ℝ → ℝ} {a b : ℝ} (hba : b < a)
+    (hf : ∀ t ∈ Icc b a, HasDerivAt f (f' t) t)
+    (hf' : ∀ t ∈ Icc b a, HasDerivAt f' (f'' t) t)
+    (hf'' : ∀ t ∈ Icc b a, HasDerivAt f'' (f''' t) t) :
+    ∃ ξ ∈ Ioo b a,
+      f b - f a - (b - a) * f' a - (b - a) ^ 2 / 2 * f'' a = f''' ξ * (b - a) ^ 3 / 6 := by
+  have hmem : ∀ t ∈ Icc (-a) (-b), -t ∈ Icc b a := fun t ht =>
+    ⟨by linarith [ht.2], by linarith [ht.1]⟩
+  obtain ⟨ξ, hξ, h⟩ := lagrange3 (f := fun t => f (-t)) (f' := fun t => -f' (-t))
+    (f'' := fun t => f'' (-t)) (f''' := fun t => -f''' (-t)) (a := -a) (b := -b) (by linarith)
+    (fun t ht => hasDerivAt_reflect (hf _ (hmem t ht)))
+    (fun t ht => by
+      have := (hasDerivAt_reflect (hf' _ (hmem t ht))).fun_neg
+      simpa using this)
+    (fun t ht => hasDerivAt_reflect (hf'' _ (hmem t ht)))
+  refine ⟨-ξ, ⟨by linarith [hξ.2], by linarith [hξ.1]⟩, ?_⟩
+  simp only [neg_neg] at h
+  have e : (-b - -a) = -(b - a) := by ring
+  rw [e] at h
+  linear_combination h
+
+/-- **Forward/backward difference quotient**: for a signed step `d ≠ 0`, the error is at most
+    `|d|/2 · M` where `M` bounds `|f''|` between `x` and `x + d`. -/
+theorem fd_error {f f' f'' : ℝ → ℝ} {x d M : ℝ} (hd : d ≠ 0)
+    (hf : ∀ t ∈ uIcc x (x + d), HasDerivAt f (f' t) t)
+    (hf' : ∀ t ∈ uIcc x (x + d), HasDerivAt f' (f'' t) t)
+    (hM : ∀ t ∈ uIcc x (x + d), |f'' t| ≤ M) :
+    |(f (x + d) - f x) / d - f' x| ≤ |d| / 2 * M := by
+  have key : ∃ ξ ∈ uIcc x (x + d), f (x + d) - f x - d * f' x = f'' ξ * d ^ 2 / 2 := by
+    rcases lt_or_gt_of_ne hd with hneg | hpos
+    · have hlt : x + d < x := by linarith
+      rw [uIcc_of_ge hlt.le] at hf hf' ⊢
+      obtain ⟨ξ, hξ, h⟩ := lagrange2_back hlt hf hf'
+      exact ⟨ξ, Ioo_subset_Icc_self hξ, by simpa using h⟩
+    · have hlt : x < x + d := by linarith
+      rw [uIcc_of_le hlt.le] at hf hf' ⊢
+      obtain ⟨ξ, hξ, h⟩ := lagrange2 hlt hf hf'
+      exact ⟨ξ, Ioo_subset_Icc_self hξ, by simpa using h⟩
+  obtain ⟨ξ, hξ, h⟩ := key
+  have e : (f (x + d) - f x) / d - f' x = f'' ξ * d / 2 := by
+    have e0 : (f (x + d) - f x) / d - f' x = (f (x + d) - f x - d * f' x) / d := by
+      field_simp
+    rw [e0, h]
+    field_simp
+  rw [e, abs_div, abs_mul, abs_two]
+  have := hM ξ hξ
+  have hd0 : 0 ≤ |d| := abs_nonneg d
+  calc |f'' ξ| * |d| / 2 ≤ M * |d| / 2 := by
+        apply div_le_div_of_nonneg_right _ (by norm_num)
+        exact mul_le_mul_of_nonneg_right this hd0
+    _ = |d| / 2 * M := by ring
+
+/-- **Centered difference quotient**: the error is at most `h²/6 · M` where `M` bounds `|f'''|`
+    on `[x - h, x + h]`. -/
+theorem cd_error {f f' f'' f''' : ℝ → ℝ} {x h M : ℝ} (hh : 0 < h)
+    (hf : ∀ t ∈ Icc (x - h) (x + h), HasDerivAt f (f' t) t)
+    (hf' : ∀ t ∈ Icc (x - h) (x + h), HasDerivAt f' (f'' t) t)
+    (hf'' : ∀ t ∈ Icc (x - h) (x + h), HasDerivAt f'' (f''' t) t)
+    (hM : ∀ t ∈ Icc (x - h) (x + h), |f''' t| ≤ M) :
+    |(f (x + h) - f (x - h)) / (2 * h) - f' x| ≤ h ^ 2 / 6 * M := by
+  have hsubR : Icc x (x + h) ⊆ Icc (x - h) (x + h) := Icc_subset_Icc (by linarith) le_rfl
+  have hsubL : Icc (x - h) x ⊆ Icc (x - h) (x + h) := Icc_subset_Icc le_rfl (by linarith)
+  obtain ⟨ξ₁, hξ₁, h₁⟩ := lagrange3 (a := x) (b := x + h) (by linarith)
+    (fun t ht => hf t (hsubR ht)) (fun t ht => hf' t (hsubR ht)) (fun t ht => hf'' t (hsubR ht))
+  obtain ⟨ξ₂, hξ₂, h₂⟩ := lagrange3_back (a := x) (b := x - h) (by linarith)
+    (fun t ht => hf t (hsubL ht)) (fun t ht => hf' t (hsubL ht)) (fun t ht => hf'' t (hsubL ht))
+  have e : (f (x + h) - f (x - h)) / (2 * h) - f' x = h ^ 2 / 12 * (f''' ξ₁ + f''' ξ₂) := by
+    have hh' : h ≠ 0 := hh.ne'
+    field_simp
+    have e1 : x + h - x = h := by ring
+    have e2 : x - h - x = -h := by ring
+    rw [e1] at h₁
+    rw [e2] at h₂
+    linear_combination 12 * h₁ - 12 * h₂
+  have b1 := hM ξ₁ (hsubR (Ioo_subset_Icc_self hξ₁))
+  have b2 := hM ξ₂ (hsubL (Ioo_subset_Icc_self hξ₂))
+  rw [e, abs_mul, abs_of_nonneg (by positivity : (0 : ℝ) ≤ h ^ 2 / 12)]
+  have : |f''' ξ₁ + f''' ξ₂| ≤ 2 * M := (abs_add_le _ _).trans (by linarith)
+  calc h ^ 2 / 12 * |f''' ξ₁ + f''' ξ₂| ≤ h ^ 2 / 12 * (2 * M) :=
+        mul_le_mul_of_nonneg_left this (by positivity)
+    _ = h ^ 2 / 6 * M := by ring
 
 end GV.C16.Analysis
